@@ -287,7 +287,13 @@ func serveLoop(e *Env, prop string) {
 					if f == nil {
 						return true
 					}
-					counts[f.Name()]++
+					cname := f.Name()
+					for _, canon := range []string{"writeResponse", "writeErrorResponse"} {
+						if esp.Is(f, pkgHTTP1, "", canon) { // also true for a function that took over the role
+							cname = canon
+						}
+					}
+					counts[cname]++
 					var hd *core.FuncInfo
 					if depth < 2 && !isEventFn(f) {
 						if x := w.DeclOf(f); x != nil && x.Pkg == fi.Pkg && x.Decl.Body != nil && x != d && reaches(x, isEvent, 2) {
